@@ -13,10 +13,12 @@ Theorem C05_int_exact : forall a b,
 Proof. intros; repeat split; [apply vadd_int | apply vsub_int | apply vmul_int]. Qed.
 Print Assumptions C05_int_exact.
 
-(** ... and beyond the 64-bit range the result is the float computation, never a wrapped integer *)
+(** ... and beyond the 64-bit range the result is the float computation, never a wrapped integer - nor a saturated one:
+    where the float is itself an integer in range (only -2^63, for results in [-2^63 - 1024, -2^63)) the row is an error
+    ([float_or_error]; fix 9eb768d) *)
 Theorem C05_int_overflow_is_float : forall a b,
-  (in_i64 (a + b) = false -> vadd (VInt a) (VInt b) = Ok (from_float (fadd (f_of_Z a) (f_of_Z b)))) /\
-  (in_i64 (a * b) = false -> vmul (VInt a) (VInt b) = Ok (from_float (fmul (f_of_Z a) (f_of_Z b)))).
+  (in_i64 (a + b) = false -> vadd (VInt a) (VInt b) = float_or_error (fadd (f_of_Z a) (f_of_Z b))) /\
+  (in_i64 (a * b) = false -> vmul (VInt a) (VInt b) = float_or_error (fmul (f_of_Z a) (f_of_Z b))).
 Proof. intros; split; [apply vadd_int_overflow | apply vmul_int_overflow]. Qed.
 Print Assumptions C05_int_overflow_is_float.
 
@@ -249,7 +251,7 @@ Example C05_unnormalised_value_breaks_trichotomy :
   vltb (VFloat (f_of_Z i64_min)) (VInt i64_min) = false /\
   veqb (VFloat (f_of_Z i64_min)) (VInt i64_min) = false /\
   vgtb (VFloat (f_of_Z i64_min)) (VInt i64_min) = false /\
-  vsub (VInt i64_min) (VInt 1) = Ok (VInt i64_min).
+  vsub (VInt i64_min) (VInt 1) = Err.
 Proof. vm_compute. repeat split. Qed.
 
 Theorem C05_precedence_roundtrip : forall (o : popts) (e : expr) (rest : str),
